@@ -377,3 +377,18 @@ Proof.
   intros c d id missing acks op cid -> ->. unfold add_ack. cbn [st_pending p_id p_missing existsb].
   rewrite N.eqb_refl. cbn [andb orb filter]. rewrite N.eqb_refl. cbn [negb]. reflexivity.
 Qed.
+
+(* the job level: a savepoint request during a pending checkpoint broadcasts no StartCheckpoint; with nothing pending
+   exactly one, for the new id.  Together with the tick's own round: one round per checkpoint id. *)
+Lemma job_savepoint_starts_lemma : forall s ops,
+  match st_pending s with
+  | Some p => p_sp p = false ->
+      exists s', job_create_savepoint s ops = (s', RId (p_id p) false, []) /\ st_counter s' = st_counter s
+  | None =>
+      exists s', job_create_savepoint s ops = (s', RId (st_counter s + 1) true, [st_counter s + 1])
+  end.
+Proof.
+  intros [c [p|] d] ops; unfold job_create_savepoint, create_savepoint; cbn [st_pending st_counter st_done].
+  - intros Hsp. rewrite Hsp. eexists. split; reflexivity.
+  - eexists. reflexivity.
+Qed.
